@@ -290,6 +290,25 @@ Section Spec.
     destruct (tstep _ op) as [o st']. reflexivity.
   Qed.
 
+  Lemma trun_from_acc ops : forall acc st,
+    fold_left (fun acc op => let '(o, st') := tstep (snd acc) op in (fst acc ++ [o], st')) ops (acc, st) =
+    (acc ++ fst (trun_from G D2R solve c st ops), snd (trun_from G D2R solve c st ops)).
+  Proof.
+    induction ops as [|op ops IH]; intros acc st.
+    - cbn [fold_left trun_from fst snd]. rewrite app_nil_r. reflexivity.
+    - unfold trun_from. cbn [fold_left fst snd]. destruct (tstep st op) as [o st']. cbn [app].
+      rewrite IH. rewrite (IH [o] st'). cbn [fst snd]. rewrite <- app_assoc. reflexivity.
+  Qed.
+
+  Lemma trun_from_cons st op ops :
+    trun_from G D2R solve c st (op :: ops) =
+    (fst (tstep st op) :: fst (trun_from G D2R solve c (snd (tstep st op)) ops),
+     snd (trun_from G D2R solve c (snd (tstep st op)) ops)).
+  Proof.
+    unfold trun_from at 1. cbn [fold_left fst snd]. destruct (tstep st op) as [o st']. cbn [app fst snd].
+    rewrite trun_from_acc. reflexivity.
+  Qed.
+
   Definition ops_uids (ops : list top) : list N :=
     flat_map (fun op => match op with Predict _ dets => map d_uid dets | _ => [] end) ops.
 
@@ -322,24 +341,34 @@ Section Spec.
     eapply In_firstn_in; exact Hd.
   Qed.
 
-  Lemma trun_reach_gen ops :
-    NoDup (ops_uids ops) ->
-    reach (snd (trun_from G D2R solve c init ops))
-    /\ (forall x, In x (g_submitted (snd (trun_from G D2R solve c init ops))) -> In x (ops_uids ops)).
+  Lemma trun_from_reach ops : forall st,
+    reach st ->
+    NoDup (ops_uids ops) -> (forall x, In x (ops_uids ops) -> ~ In x (g_submitted st)) ->
+    reach (snd (trun_from G D2R solve c st ops))
+    /\ (forall x, In x (g_submitted (snd (trun_from G D2R solve c st ops))) ->
+                  In x (g_submitted st) \/ In x (ops_uids ops)).
   Proof.
-    induction ops as [|op ops IH] using rev_ind; intro Hnd.
-    - split; [apply reach_init|]. intros x [].
-    - unfold ops_uids in Hnd. rewrite flat_map_app in Hnd. fold (ops_uids ops) in Hnd. fold (ops_uids [op]) in Hnd.
-      destruct (IH (NoDup_app_l _ _ Hnd)) as [Hr Hs]. rewrite trun_from_snoc. cbn [snd]. split.
+    induction ops as [|op ops IH] using rev_ind; intros st Hst Hnd Hfr.
+    - split; [exact Hst|]. intros x Hx. left; exact Hx.
+    - unfold ops_uids in Hnd, Hfr. rewrite flat_map_app in Hnd, Hfr.
+      fold (ops_uids ops) in Hnd, Hfr. fold (ops_uids [op]) in Hnd, Hfr.
+      destruct (IH st Hst (NoDup_app_l _ _ Hnd) (fun x Hx => Hfr x (in_or_app _ _ _ (or_introl Hx)))) as [Hr Hs].
+      rewrite trun_from_snoc. cbn [snd]. split.
       + apply reach_step; [exact Hr|]. destruct op; try exact I. split.
         * apply NoDup_app_r in Hnd. unfold ops_uids in Hnd. cbn [flat_map] in Hnd. rewrite app_nil_r in Hnd. exact Hnd.
-        * intros d Hd Hin. apply Hs in Hin. eapply (NoDup_app_disj _ _ _ Hnd Hin).
-          unfold ops_uids. cbn [flat_map]. rewrite app_nil_r. apply in_map; exact Hd.
-      + intros x Hx. apply g_submitted_incl in Hx. unfold ops_uids. rewrite flat_map_app. apply in_or_app.
-        destruct Hx as [Hx|Hx]; [left; apply Hs; exact Hx|right; exact Hx].
+        * intros d Hd Hin.
+          assert (Hd' : In (d_uid d) (ops_uids [Predict scene dets])).
+          { unfold ops_uids. cbn [flat_map]. rewrite app_nil_r. apply in_map; exact Hd. }
+          apply Hs in Hin. destruct Hin as [Hin|Hin].
+          -- apply (Hfr (d_uid d)); [apply in_or_app; right; exact Hd'|exact Hin].
+          -- exact (NoDup_app_disj _ _ _ Hnd Hin Hd').
+      + intros x Hx. apply g_submitted_incl in Hx. unfold ops_uids. rewrite flat_map_app.
+        destruct Hx as [Hx|Hx].
+        * apply Hs in Hx. destruct Hx as [Hx|Hx]; [left; exact Hx|right; apply in_or_app; left; exact Hx].
+        * right. apply in_or_app; right; exact Hx.
   Qed.
 
   Lemma trun_reach ops : NoDup (ops_uids ops) -> reach (snd (trun G D2R solve c ops)).
-  Proof. intro H. apply (trun_reach_gen ops H). Qed.
+  Proof. intro H. apply (trun_from_reach ops init reach_init H). intros x _ []. Qed.
 
 End Spec.
